@@ -3,6 +3,7 @@ package main
 // Call instruction semantics.
 
 import (
+	"math/big"
 	"fmt"
 	"go/types"
 	"path/filepath"
@@ -806,6 +807,70 @@ func (x *Exec) specialCall(st *State, i *ssa.Call, callee *ssa.Function, args []
 					setResult(st, []Value{VSlice{Reg: reg, Off: z, Len: ln, Cap: ln, Ty: tyString}})
 					return x.finishSpecial(st, k)
 				}
+			}
+		}
+	}
+	// fmt.Sprintf with any other constant format: the text is not modelled, but the result is
+	// remembered as "a rendering of this format with these integer operands" through the
+	// uninterpreted observers sprintfFmt(s) / sprintfInt(s, j) (speclib/05_reflect.spec) - ASSUMED:
+	// fmt renders a format deterministically, so the format and its integer operands are a function
+	// of the rendered text for the formats this module uses
+	if callee.Pkg != nil && callee.Pkg.Pkg.Path() == "fmt" && callee.Name() == "Sprintf" && len(args) == 2 {
+		fnF, okF := x.W.SpecFns["sprintfFmt"]
+		fnI, okI := x.W.SpecFns["sprintfInt"]
+		if fc, ok := i.Common().Args[0].(*ssa.Const); ok && fc.Value != nil && okF && okI {
+			nargs := int64(-1)
+			switch a := i.Common().Args[1].(type) {
+			case *ssa.Const:
+				nargs = 0
+			case *ssa.Slice:
+				if pt, ok := a.X.Type().Underlying().(*types.Pointer); ok {
+					if at, ok := pt.Elem().Underlying().(*types.Array); ok {
+						nargs = at.Len()
+					}
+				}
+			}
+			va, isSl := args[1].(VSlice)
+			if nargs >= 0 && (isSl || nargs == 0) {
+				format := constantStringVal(fc)
+				x.W.Assumes[`fmt.Sprintf(<constant format>, operands...): the rendered text determines the format and its integer operands (observers sprintfFmt / sprintfInt; the text itself is not modelled)`] = true
+				reg := x.allocRegion(st, nil)
+				arr := FreshVar("sprintf.text", ArrSort(IdxSort, BV(8)))
+				hk := heapKey(tyU8, "")
+				st.heaps[hk] = Store(st.heap(hk, BV(8)), reg, arr)
+				ln := FreshVar("sprintf.len", IdxSort)
+				z := BVInt(0, 64)
+				st.assume(BVCmp("bvsle", z, ln))
+				st.assume(BVCmp("bvsle", ln, BVInt(int64(1)<<32, 64)))
+				res := VSlice{Reg: reg, Off: z, Len: ln, Cap: ln, Ty: tyString}
+				ev := &Env{W: x.W, st: st, bound: map[string]SVal{}}
+				sv := sliceToS(res, st)
+				if t, ok := x.W.applySpecFn(ev, fnF, []SVal{sv}).(SInt); ok {
+					st.assume(Eq(t.T, BVConst(new(big.Int).SetUint64(fmtID(format)), 64)))
+				}
+				for j := int64(0); j < nargs; j++ {
+					e, ok := loadElem(st, &STy{K: TIface}, va.Reg, BVBin("bvadd", va.Off, BVInt(j, 64))).(VScalar)
+					if !ok || st.boxed == nil {
+						continue
+					}
+					p, ok := st.boxed[e.T].(VScalar)
+					if !ok || p.Ty.K != TInt {
+						continue
+					}
+					v64 := p.T
+					if p.Ty.W < 64 {
+						if p.Ty.Signed {
+							v64 = SExt(p.T, 64)
+						} else {
+							v64 = ZExt(p.T, 64)
+						}
+					}
+					if t, ok := x.W.applySpecFn(ev, fnI, []SVal{sv, SInt{BVInt(j, 64), tyInt}}).(SInt); ok {
+						st.assume(Eq(t.T, v64))
+					}
+				}
+				setResult(st, []Value{res})
+				return x.finishSpecial(st, k)
 			}
 		}
 	}
